@@ -202,6 +202,10 @@ def exclusive_cases(d):
     pf.write_bytes(b'pw')
     cases = [('file: key + key-file', 'key = "x"\nkey-file = "%s"\n' % kf, []),
              ('file: password + password-file', 'password = "x"\npassword-file = "%s"\n' % pf, []),
+             ('profile: password + password-file', '[prof]\npassword = "x"\npassword-file = "%s"\n' % pf, ['--profile', 'prof']),
+             ('profile: key + key-file', '[prof]\nkey = "x"\nkey-file = "%s"\n' % kf, ['--profile', 'prof']),
+             ('default password + profile password-file', 'password = "x"\n[prof]\npassword-file = "%s"\n' % pf, ['--profile', 'prof']),
+             ('default key-file + profile key', 'key-file = "%s"\n[prof]\nkey = "x"\n' % kf, ['--profile', 'prof']),
              ('cli: -p + -P', '', ['-p', 'x', '-P', str(pf)]),
              ('cli: --no-cache + --cache-directory', '', ['--no-cache', '--cache-directory', str(d)]),
              ('cli: add-key --shared + --clone', '', ['--shared', '--clone'])]
